@@ -26,6 +26,7 @@ FAM_TF = [c03.CLS[k] for k in c03.KINDS] + ["InverseRTransform"]
 REQUIRED_FAMILIES = FAM_TF + ["chain", "subdomain", "gl-linear-exactness", "exp-integral", "incidental", "pinned"]
 BUDGET = {"quick": 900, "thorough": 7200}  # per-worker seconds; expected on 16 idle cores: quick ~10 s, thorough ~3-4 min
 MAX_DISCARD_FRACTION = 0.02
+TOL_EXPINT = 1e-3  # |beta*I - 1|; largest quadrature error seen (GL n=60/120, beta*R in [2,4]) 2.8e-6; the sign defect gives 2
 
 RULES_M11 = ["GaussLegendre", "GaussChebyshev", "GaussChebyshevType2", "GaussChebyshevLobatto", "Trapezoidal", "RectangleRuleSineEndPoints", "TanhSinh", "Simpson", "MidPoint", "ClenshawCurtis", "FejerFirst", "FejerSecond", "TrefethenCC", "TrefethenGC2", "TrefethenGeneral", "TrefethenStripCC", "TrefethenStripGC2", "TrefethenStripGeneral", "SingleTanh"]
 RULES_0INF = ["GaussLaguerre", "UniformInteger", "ExpSinh", "LogExpSinh", "ExpExp", "SingleExp", "SingleArcSinhExp"]
@@ -49,7 +50,7 @@ RULE = (
 )
 ASSUMPTIONS = [
     "|J| oracle: long-double Chebyshev differentiation of the implemented tf.transform, rel 1e-6 + 100 x its error estimate; nodes where that exceeds 1e-3 are undecided (counted)",
-    "exp-integral clause decides sign and gross magnitude only (|beta*I - 1| <= 0.25): Gauss-Legendre through logarithmic maps converges slowly (observed error up to 0.06 at n=60 for beta*R in [2,4])",
+    "exp-integral clause: |beta*I - 1| <= 1e-3 with Gauss-Legendre n in {60,120}, rmin=0 and beta*R in [2,4] (integrand (1-u^k)^(beta R-1) smooth at the singular end; largest quadrature error seen 2.8e-6; for beta*R<1 Gauss-Legendre through the logarithmic maps is only accurate to ~0.1 and is not used)",
     "admissible pairings only: no node on a singular end of the map",
 ]
 LEVEL_TEXT = "Held on every explored (rule, n, transform) pairing except the recorded open findings; post-condition also fired on incidental library-internal calls."
@@ -393,8 +394,8 @@ def run_case(ctx, family, params):
             return
         with np.errstate(all="ignore"):
             val = float(new.integrate(np.exp(-beta * new.points))) * beta
-        sig = "integral==-1/beta" if abs(val + 1) <= 0.25 else ("integral-negative" if val < 0 else "integral-magnitude")
-        ctx.check("exp-integral", mon.describe(tf), abs(val - 1), 0.25, sig=sig, detail={"beta_times_integral": val, "n": params["n"], "args": c03._note(I)})
+        sig = "integral==-1/beta" if abs(val + 1) <= TOL_EXPINT else ("integral-negative" if val < 0 else "integral-magnitude")
+        ctx.check("exp-integral", mon.describe(tf), abs(val - 1), TOL_EXPINT, sig=sig, detail={"beta_times_integral": val, "n": params["n"], "args": c03._note(I)})
         ctx.case_note("beta*I", val)
     elif family == "incidental":
         from grid.atomgrid import AtomGrid
@@ -422,7 +423,7 @@ def _pinned(ctx, what):
         g, tf = og.GaussLegendre(60), rt.MultiExpRTransform(0.0, 1.0)
         new, _ = transform_and_check(ctx, tf, g, what)
         val = float(new.integrate(np.exp(-new.points)))
-        ctx.check("exp-integral", mon.describe(tf), abs(val - 1), 0.25, sig="integral==-1/beta" if abs(val + 1) <= 0.25 else "integral-magnitude", detail={"beta_times_integral": val})
+        ctx.check("exp-integral", mon.describe(tf), abs(val - 1), TOL_EXPINT, sig="integral==-1/beta" if abs(val + 1) <= TOL_EXPINT else "integral-magnitude", detail={"beta_times_integral": val})
     elif what == "inverse-multiexp-negative-weights":
         transform_and_check(ctx, rt.InverseRTransform(rt.MultiExpRTransform(0.0, 1.5)), og.GaussLaguerre(20), what)
     elif what == "hyperbolic-nan-domain":
